@@ -21,6 +21,10 @@ class FaceVariable:
     >>> f = pf.FaceVariable(m, 1.0)
 
     """
+    # Let NumPy scalars and arrays on the left-hand side of a binary operator 
+    # defer to the reflected operators of this class.
+    __array_priority__ = 100.0
+
     @overload
     def __init__(self, mesh: MeshStructure, faceval : float):
         ...
